@@ -8,14 +8,18 @@ VERIF = os.path.dirname(os.path.dirname(os.path.abspath(__file__)))
 
 TECH = 'deterministic simulation: seeded scheduler over a pool of live ' \
        'tables, suspended readers and storage, with fault injection, checked ' \
-       'against a dense reference model; ddmin-minimised replayable event lists'
+       'against a dense reference model; swarm-style per-run configuration ' \
+       '(focus runs on two or three operations, caller habits, fault rate and ' \
+       'placement, observe-mutate-observe); ddmin-minimised replayable event ' \
+       'lists'
 
 def _c(text, note, tech, cat='exploration'):
     return (cat, text, note, tech)
 
 
 _WORLD_NOTE = ('trusts the dense reference model in sim/ (written from the '
-               'property text); bounds: tables <= 6x6 (thorough up to 12x12), '
+               'property text); bounds: tables <= 6x6 (thorough up to 14x14; '
+               'storage probes also one axis of 513..800), '
                '<= 60 events per run, pool <= 6 tables, <= 4 suspended readers; '
                'compiled .pyx kernels cannot be rebuilt here')
 _SAMPLING = ' Sampling over seeds, not proof: a clean batch is evidence.'
